@@ -347,7 +347,7 @@ func c01ModCases(yield func(vc01.Case) bool) {
 			for _, hs := range shapes {
 				for _, bl := range bodies {
 					for _, mod := range vc01.ModsNoClass {
-						if !yield(vc01.Case{Codec: "tars", Dir: dir, Kind: "mod", Mod: mod, Class: cl, Hdr: hs, Body: bl, Seed: cl + bl + 1, ID: 0x0a0b0c0d, NewID: 0x71f2f3f4}) {
+						if !vc01.ModTwins(vc01.Case{Codec: "tars", Dir: dir, Kind: "mod", Mod: mod, Class: cl, Hdr: hs, Body: bl, Seed: cl + bl + 1, ID: 0x0a0b0c0d, NewID: 0x71f2f3f4}, yield) {
 							return
 						}
 					}
@@ -374,6 +374,6 @@ func TestVerifC01TarsModify(t *testing.T) {
 	p := vreport.Begin("C01", "tars-modify", time.Duration(vreport.Pick(60, 900))*time.Second)
 	a := c01Adapter()
 	complete := vreport.Run(p, c01ModCases, func(p *vreport.Part, c vc01.Case) { vc01.CheckMod(p, a, c) })
-	p.End(complete, "dirs x servant|desc {1,100 | thorough: all} x map shapes {none, 1 pair | thorough: all with distinct keys} x sBuffer {0,1,100 | thorough: all} x 10 modifications (quick keeps base frames below 256 bytes, the only ones the unchanged tree decodes)",
-		"modification applied through HeaderMap.Set/Del and SetData; then three upstream attempts (SetData(same buffer object), SetRequestId, Encode): the first Encode must return an error or, like each later one, bytes that the reference parser AND a fresh Decode read back as exactly the modified headers/body with consistent lengths. Header view of a request = service, method; of a response = none; the tars codec exposes the whole frame as data, a replacement body is a well-formed frame of the same packet with another sBuffer")
+	p.End(complete, "dirs x servant|desc {1,100 | thorough: all} x map shapes {none, 1 pair | thorough: all with distinct keys} x sBuffer {0,1,100 | thorough: all} x 10 modifications (quick keeps base frames below 256 bytes, the only ones the unchanged tree decodes)"+vc01.ModTwinsBound,
+		"modification applied through HeaderMap.Set/Del and SetData; then three upstream attempts (SetData(same buffer object), SetRequestId, Encode): the first Encode must return an error or, like each later one, bytes that the reference parser AND a fresh Decode read back as exactly the modified headers/body with consistent lengths. Header view of a request = service, method; of a response = none; the tars codec exposes the whole frame as data, a replacement body is a well-formed frame of the same packet with another sBuffer"+vc01.ModTwinsRule)
 }
